@@ -30,6 +30,16 @@ Two granularities:
     (statement granularity, robust against restructured code; used by the
     directed search and the random stage).
 
+Shared-access statements (`shared_points=True`, used for the workloads in which a thread DERIVES a retort from the
+shared one with `extend` / `replace` while other threads use it): besides the classified points above, every
+statement of the traced files that touches the CONTENTS of one of the shared caches (`SHARED_ATTRS`, or a local
+alias of one) - subscript, `in`, a method of the dict, iteration, a builtin reader such as `dict(x)` / `list(x)`,
+unpacking - is a scheduling point of kind `shared`, found by AST shape like the others; every line event inside
+the statement's span counts, so a comprehension / loop over a cache yields once per iteration.  In mode="lines"
+the code that runs between the harness points `derive` and `derived` is traced *wide*: every line of every
+function of the traced files is a scheduling point (its first `WIDE_UNROLL` executions), whatever helper the
+cloning code calls.
+
 A lock (`with self._lock` of ConcurrentCounter) is handled as a lock: a thread
 arriving at the `with` statement while the lock is held is *not enabled*.
 Deadlock / livelock = no enabled thread, or a granted thread that does not
@@ -57,7 +67,15 @@ TRACED_FILES = (
     "retort/searching_retort.py",
     "retort/request_bus.py",
     "code_tools/compiler.py",
+    "retort/base_retort.py",
+    "utils.py",
 )
+# files of which only the named functions are traced (the rest is general-purpose helper code called all the time)
+ONLY_FUNCS = {"utils.py": {"_clone"}}
+WIDE_UNROLL = 3     # wide line tracing: executions of one line that are scheduling points
+# the shared mutable state of a retort (plain dicts mutated without locks); `PointTable(shared_attrs=...)` may add
+# the names found at run time
+SHARED_ATTRS = frozenset({"_call_cache", "_loader_cache", "_dumper_cache"})
 
 
 def _attr_name(node) -> Optional[str]:
@@ -121,6 +139,107 @@ def _m_ctr_incr(st):
     return isinstance(st, ast.AugAssign) and _is_sub_of_attr(st.target, "_name_to_idx")
 
 
+# ---- statements that touch the contents of a shared cache ---------------------------------------------------
+
+import builtins as _builtins
+
+_READERS = (set(dir(_builtins)) | {"copy", "deepcopy"}) - {"getattr", "hasattr", "setattr", "isinstance", "type", "id"}
+
+
+def _header_exprs(st) -> list:
+    """the expressions a statement itself evaluates (for a compound statement: its header, not its body)"""
+    if isinstance(st, (ast.For, ast.AsyncFor)):
+        return [st.target, st.iter]
+    if isinstance(st, (ast.If, ast.While)):
+        return [st.test]
+    if isinstance(st, (ast.With, ast.AsyncWith)):
+        return [i.context_expr for i in st.items]
+    if isinstance(st, ast.Match):
+        return [st.subject]
+    if isinstance(st, (ast.Try, ast.FunctionDef, ast.AsyncFunctionDef, ast.ClassDef)) or \
+            type(st).__name__ == "TryStar":
+        return []
+    return [st]
+
+
+def _mentions_source(node, attrs) -> bool:
+    return any((isinstance(n, ast.Attribute) and n.attr in attrs)
+               or (isinstance(n, ast.Constant) and isinstance(n.value, str) and n.value in attrs)
+               for n in ast.walk(node))
+
+
+def _tainted_names(fn, attrs) -> set:
+    """local names bound (directly or through another alias) to an expression that mentions a shared cache"""
+    tainted: set = set()
+    changed = True
+    while changed:
+        changed = False
+        for n in ast.walk(fn):
+            if isinstance(n, ast.Assign):
+                targets, value = n.targets, n.value
+            elif isinstance(n, (ast.AnnAssign, ast.NamedExpr)):
+                targets, value = [n.target], n.value
+            else:
+                continue
+            if value is None or isinstance(value, (ast.DictComp, ast.ListComp, ast.SetComp, ast.GeneratorExp)):
+                continue        # a new container built FROM a cache is not the cache
+            if not (_mentions_source(value, attrs)
+                    or any(isinstance(x, ast.Name) and x.id in tainted for x in ast.walk(value))):
+                continue
+            for t in targets:
+                for x in ast.walk(t):
+                    if isinstance(x, ast.Name) and x.id not in tainted and isinstance(t, (ast.Name, ast.Tuple)):
+                        tainted.add(x.id)
+                        changed = True
+    return tainted
+
+
+def _touches_contents(exprs, tainted, attrs) -> bool:
+    def sh(e):
+        return (isinstance(e, ast.Attribute) and e.attr in attrs) or (isinstance(e, ast.Name) and e.id in tainted)
+    for root in exprs:
+        for n in ast.walk(root):
+            if isinstance(n, ast.Subscript) and sh(n.value):
+                return True
+            if isinstance(n, ast.Compare) and any(isinstance(op, (ast.In, ast.NotIn)) and sh(c)
+                                                  for op, c in zip(n.ops, n.comparators)):
+                return True
+            if isinstance(n, ast.Attribute) and sh(n.value):                    # x.items() / x.get(..) / x.copy()
+                return True
+            if isinstance(n, ast.comprehension) and sh(n.iter):
+                return True
+            if isinstance(n, ast.Call):
+                if isinstance(n.func, ast.Name) and n.func.id in _READERS and any(sh(a) for a in n.args):
+                    return True                                                  # dict(x), list(x), len(x), copy(x)
+                if any(kw.arg is None and sh(kw.value) for kw in n.keywords):    # f(**x)
+                    return True
+            if isinstance(n, ast.Starred) and sh(n.value):
+                return True
+            if isinstance(n, ast.Dict) and any(k is None and sh(v) for k, v in zip(n.keys, n.values)):
+                return True                                                      # {**x}
+    return False
+
+
+def shared_access_lines(fn, attrs) -> dict:
+    """line -> first line of the statement, for every line of the span of every statement of `fn` (nested
+    functions included) that touches the contents of a shared cache"""
+    tainted = _tainted_names(fn, attrs)
+    out: dict = {}
+    for st in ast.walk(fn):
+        if not isinstance(st, ast.stmt):
+            continue
+        exprs = _header_exprs(st)
+        loop_over = isinstance(st, (ast.For, ast.AsyncFor)) and (
+            (isinstance(st.iter, ast.Attribute) and st.iter.attr in attrs)
+            or (isinstance(st.iter, ast.Name) and st.iter.id in tainted))         # `for k in self._call_cache:`
+        if not exprs or not (loop_over or _touches_contents(exprs, tainted, attrs)):
+            continue
+        last = max(getattr(e, "end_lineno", st.lineno) or st.lineno for e in exprs)
+        for line in range(st.lineno, last + 1):
+            out.setdefault(line, st.lineno)
+    return out
+
+
 # (file suffix, class, function, kind, matcher, scheduling?)   scheduling=False -> local, recorded only
 POINT_SPECS = [
     ("retort/builtin_mediator.py", "BuiltinMediator", "cached_call", "cc_contains", _m_cc_contains, True),
@@ -152,21 +271,28 @@ REQUIRED_KINDS = {
 # functions whose every line is a scheduling point in mode="lines"
 LINE_FUNCS = {
     "retort/builtin_mediator.py": {"cached_call", "provide"},
-    "morphing/facade/retort.py": {"get_loader", "get_dumper", "_make_loader", "_make_dumper", "load", "dump"},
+    "morphing/facade/retort.py": {"get_loader", "get_dumper", "_make_loader", "_make_dumper", "load", "dump",
+                                  "replace", "extend", "_calculate_derived"},
     "retort/operating_retort.py": {"set_func", "track_request", "track_response", "__init__"},
-    "retort/searching_retort.py": {"_provide_from_recipe", "_create_mediator", "_facade_provide", "mediator_factory"},
+    "retort/searching_retort.py": {"_provide_from_recipe", "_create_mediator", "_facade_provide", "mediator_factory",
+                                   "_calculate_derived"},
     "retort/request_bus.py": {"send"},
     "code_tools/compiler.py": {"generate_idx", "_get_unique_id"},
+    "retort/base_retort.py": {"_calculate_derived"},
+    "utils.py": {"_clone"},
 }
 
 
 class PointTable:
     """(filename, lineno) -> (kind, scheduling) for one source tree."""
 
-    def __init__(self, src_root: Path):
+    def __init__(self, src_root: Path, shared_attrs=SHARED_ATTRS):
         self.src_root = Path(src_root)
         self.by_line: dict[tuple[str, int], tuple[str, bool, str]] = {}
         self.line_funcs: dict[str, set[str]] = {}
+        self.only_funcs: dict[str, set[str]] = {}
+        self.shared_attrs = frozenset(shared_attrs)
+        self.shared_statements: dict[str, int] = {}     # "file:function+rel" -> number of lines of the span
         self.files: set[str] = set()
         self.missing: list[str] = []
         self.ambiguous: list[str] = []
@@ -176,6 +302,8 @@ class PointTable:
             path = str((base / suffix).resolve())
             self.files.add(path)
             self.line_funcs[path] = LINE_FUNCS.get(suffix, set())
+            if suffix in ONLY_FUNCS:
+                self.only_funcs[path] = ONLY_FUNCS[suffix]
             try:
                 tree = ast.parse(Path(path).read_text())
             except (OSError, SyntaxError) as e:  # pragma: no cover
@@ -190,6 +318,20 @@ class PointTable:
                             if isinstance(st, ast.stmt) and matcher(st):
                                 self.by_line[(path, st.lineno)] = (kind, sched, f"{c}.{f}")
                                 found[(f"{c}.{f}", kind)] = found.get((f"{c}.{f}", kind), 0) + 1
+            # statements touching the contents of a shared cache, in any function of the file (classified points win)
+            nested = set()
+            for fn in [n for n in ast.walk(tree) if isinstance(n, (ast.FunctionDef, ast.AsyncFunctionDef))]:
+                if id(fn) in nested:
+                    continue        # analysed with its enclosing function (aliases are visible to closures)
+                nested.update(id(n) for n in ast.walk(fn)
+                              if n is not fn and isinstance(n, (ast.FunctionDef, ast.AsyncFunctionDef)))
+                if suffix in ONLY_FUNCS and fn.name not in ONLY_FUNCS[suffix]:
+                    continue
+                for line, first in shared_access_lines(fn, self.shared_attrs).items():
+                    if (path, line) not in self.by_line:
+                        self.by_line[(path, line)] = ("shared", True, f"{fn.name}+{first - fn.lineno}")
+                        k = f"{suffix}:{fn.name}+{first - fn.lineno}"
+                        self.shared_statements[k] = self.shared_statements.get(k, 0) + 1
         for need in sorted(REQUIRED_KINDS):
             n = found.get(need, 0)
             if n == 0:
@@ -200,6 +342,10 @@ class PointTable:
     @property
     def complete(self) -> bool:
         return not self.missing and not self.ambiguous
+
+    def wide_ok(self, path: str) -> bool:
+        """wide line tracing covers every traced file whose functions are not restricted (`ONLY_FUNCS`)"""
+        return path not in self.only_funcs
 
 
 # --------------------------------------------------------------------------------------
@@ -278,12 +424,13 @@ class Run:
     """One controlled execution of `fns` (one function per thread; each receives its `Run` handle and tid)."""
 
     def __init__(self, table: PointTable, namer: Namer, mode: str = "points", step_timeout: float = 5.0,
-                 sched_kinds: Optional[set[str]] = None):
+                 sched_kinds: Optional[set[str]] = None, shared_points: bool = False):
         self.table = table
         self.namer = namer
         self.mode = mode
         self.step_timeout = step_timeout
         self.sched_kinds = sched_kinds      # None = every scheduling kind of POINT_SPECS (+ harness points)
+        self.shared_points = shared_points  # statements touching the contents of a shared cache are scheduling points
         self.actions: list[list] = []       # global action trace
         self.decisions: list[dict] = []     # per scheduling decision: enabled tids, chosen, current before
         self.threads: list[_TState] = []
@@ -313,14 +460,27 @@ class Run:
         if lab is not None:
             self.actions.append([ts.tid, kind, *lab])
 
+    def wide(self, on: bool):
+        """mode="lines": from now on / no longer every line of every function of the traced files is a scheduling
+        point for the calling thread (used around the call that derives a retort: whatever the cloning code calls)"""
+        self._tls.wide = bool(on)
+        self._tls.wide_seen = {}
+
     def _tracer_global(self, frame, event, arg):
         if event != "call":
             return None
         fn = frame.f_code.co_filename
         if fn in self.table.files:
+            only = self.table.only_funcs.get(fn)
             if self.mode == "lines":
+                if getattr(self._tls, "wide", False) and self.table.wide_ok(fn):
+                    return self._tracer_lines
                 if frame.f_code.co_name in self.table.line_funcs.get(fn, ()):
                     return self._tracer_lines
+                if self.shared_points and (only is None or frame.f_code.co_name in only):
+                    return self._tracer_shared_lines
+                return None
+            if only is not None and frame.f_code.co_name not in only:
                 return None
             return self._tracer_local
         return None
@@ -332,6 +492,16 @@ class Run:
         if hit is None:
             return self._tracer_local
         kind, sched, _where = hit
+        if kind == "shared":
+            if not self.shared_points:
+                return self._tracer_local
+            where = _where
+            sys.settrace(None)
+            try:
+                self.point("shared", lambda: [where])
+            finally:
+                sys.settrace(self._tracer_global)
+            return self._tracer_local
         sys.settrace(None)
         try:
             lock = None
@@ -356,6 +526,14 @@ class Run:
     def _tracer_lines(self, frame, event, arg):
         if event != "line":
             return self._tracer_lines
+        if getattr(self._tls, "wide", False):
+            # bounded unrolling: the first WIDE_UNROLL executions of a line are scheduling points (the cloning code
+            # loops over the whole recipe; a loop over a shared container is met in its first iterations)
+            seen = self._tls.wide_seen
+            k = (frame.f_code, frame.f_lineno)
+            seen[k] = seen.get(k, 0) + 1
+            if seen[k] > WIDE_UNROLL:
+                return self._tracer_lines
         sys.settrace(None)
         try:
             code = frame.f_code
@@ -368,6 +546,21 @@ class Run:
         finally:
             sys.settrace(self._tracer_global)
         return self._tracer_lines
+
+    def _tracer_shared_lines(self, frame, event, arg):
+        """mode="lines", a function that is not traced line by line: only its shared-access statements yield"""
+        if event != "line":
+            return self._tracer_shared_lines
+        hit = self.table.by_line.get((frame.f_code.co_filename, frame.f_lineno))
+        if hit is None or hit[0] != "shared":
+            return self._tracer_shared_lines
+        where = hit[2]
+        sys.settrace(None)
+        try:
+            self.point("line", lambda: [where])
+        finally:
+            sys.settrace(self._tracer_global)
+        return self._tracer_shared_lines
 
     def _body(self, ts: _TState):
         self._tls.ts = ts
